@@ -11,83 +11,36 @@ EXPLANATION = (
 ASSUMPTIONS = [
     "bounds: <= 3 concurrent requests, <= 6 tasks, <= 2 flushes, pool size in {1,2,3}",
 ]
-BUDGET = {"quick": 240, "thorough": 2400}
+BUDGET = {"quick": 150, "thorough": 2400}
 MON = ["C02"]
-
-
-def requests(tier):
-    rs = {
-        "A2": [[A("A", 2)]],
-        "A2|M3/2": [[A("A", 2)], [M("M", 3, 2)]],
-        "M3/1|A1": [[M("M", 3, 1)], [A("A", 1)]],
-    }
-    if tier == "thorough":
-        rs["A3|M2/2"] = [[A("A", 3)], [M("M", 2, 2)]]
-        rs["M4/2"] = [[M("M", 4, 2)]]
-    return rs
-
-
-def disturbers(tier):
-    ds = {
-        "none": [],
-        "cancel0": [[cancel(rid("A", 0))]],
-        "cancel0+cancel1": [[cancel(rid("A", 0))], [cancel(rid("A", 1))]],
-        "cgroupA": [[cgroup("A")]],
-        "call": [[CALL]],
-        "flush": [[FLUSH]],
-        "cancel0+flush": [[cancel(rid("A", 0))], [FLUSH]],
-        "cancel0+flush+flush": [[cancel(rid("A", 0))], [FLUSH], [FLUSH]],
-        "call+flush": [[CALL], [FLUSH]],
-        "cancel0+cancel1+flush": [[cancel(rid("A", 0))], [cancel(rid("A", 1))], [FLUSH]],
-    }
-    if tier == "thorough":
-        ds["cgroupM"] = [[cgroup("M")]]
-        ds["cancel0+cgroupA"] = [[cancel(rid("A", 0))], [cgroup("A")]]
-    return ds
-
-
-CBS = {
-    "plain": dict(ecb="plain", ccb="plain"),
-    "slowccb": dict(ecb="plain", ccb="slow", slow_ids=[0, 1]),
-    "slowecb": dict(ecb="slow", ccb="coro", slow_ids=[0]),
-}
 
 
 def cells(tier):
     out = []
-    sizes = [1, 2] if tier == "quick" else [1, 2, 3]
-    for size in sizes:
-        for rn, ra in requests(tier).items():
-            for dn, da in disturbers(tier).items():
-                if "A1" in rn and "cancel1" in dn:
-                    continue
-                if dn == "cgroupM" and "M" not in rn:
-                    continue
-                for cn, cb in CBS.items():
-                    outs = [["ret"]]
-                    if cn == "plain":
-                        outs.append(["ret", "exc"])
-                    for o in outs:
-                        if tier == "quick" and cn != "plain" and dn in ("none", "cgroupA") :
-                            continue
-                        sc = scen(pool(size), ra + da, outcomes=o, **cb)
-                        out.append(cell(f"s{size} {rn} {dn} {cn} {'/'.join(o)}", sc, MON))
-    # SimpleTaskPool
-    for size in sizes:
+    q = tier == "quick"
+    light = ["none", "cancel0", "cgroupA", "call", "flush"]
+    heavy = ["cancel0+cancel1", "cancel0+flush", "cancel0+flush+flush", "call+flush", "cancel0+cancel1+flush"]
+    out += grid(MON, [1, 2], ["A2", "M3/1|A1"], light + heavy, ["plain", "slowccb", "slowecb"], [["ret"], ["ret", "exc"]],
+                skip=lambda s, rn, dn, cn, o: (cn != "plain" and len(o) > 1) or (cn != "plain" and dn in ("none", "cgroupA"))
+                or (q and rn != "A2" and dn in heavy and (len(o) > 1 or cn == "slowecb")))
+    out += grid(MON, [1, 2], ["A2|M3/2"], light + (["cgroupM"] if not q else []), ["plain"], [["ret"]] if q else [["ret", "exc"]])
+    out += grid(MON, [1] if q else [1, 2], ["A2|M3/2"], ["cancel0+flush", "call+flush"], ["slowccb"] if q else ["plain", "slowccb", "slowecb"], [["ret"]])
+    for size in [1, 2]:
         for dn, da in {
             "stop1": [[["stop", 1]]],
             "stopall+flush": [[["stop_all"]], [FLUSH]],
-            "cancel0": [[cancel(0)]],
+            "cancel0": [[cancel(rid("S", 0))]],
         }.items():
             sc = scen(pool(size, "SimpleTaskPool", ecb="plain", ccb="plain"), [[S("S", 2)], [S("T", 1)]] + da,
                       outcomes=["ret", "exc"])
-            out.append(cell(f"simple s{size} S2|S1 {dn}", sc, MON))
-    if tier == "thorough":
+            out.append(cell(f"simple s{size} S2|T1 {dn}", sc, MON))
+    if not q:
+        out += grid(MON, [3], ["A2|M3/2", "A3|M2/2", "M4/2"], ["cancel0", "cancelM0", "cgroupM", "call", "call+flush"], ["plain"], [["ret", "exc"]], prefix="T ")
+        out += grid(MON, [1, 2], ["A3|M2/2", "A1|M2/1|A1"], ["cancel0+flush+flush", "cancel0+cancel1+flush", "call+flush"], ["slowccb", "slowecb1"], [["ret"]], prefix="T ")
         # capacity probe as a terminal branch at every quiet idle state
         for size in [1, 2]:
-            for rn, ra in requests("quick").items():
+            for rn in ("A2", "A2|M3/2", "M3/1|A1"):
                 for dn in ("cancel0", "call", "cancel0+flush"):
-                    da = disturbers("quick")[dn]
-                    sc = scen(pool(size), ra + da + [[PROBE]], outcomes=["ret", "exc"], ecb="plain", ccb="slow", slow_ids=[0])
+                    sc = scen(pool(size), REQS[rn] + DISTS[dn] + [[PROBE]], outcomes=["ret", "exc"], ecb="plain", ccb="slow", slow_ids=[0])
                     out.append(cell(f"probe-everywhere s{size} {rn} {dn}", sc, MON))
     return out
